@@ -227,9 +227,14 @@ type AMsg struct {
 	// CLOverride, when non-empty, replaces the computed Content-Length value
 	// (C08/C10: wrong declared lengths).
 	CLOverride string `json:"cl_override,omitempty"`
+	// StartOverride, when non-empty, replaces the start line (hostile inputs).
+	StartOverride string `json:"start_override,omitempty"`
 }
 
 func (m *AMsg) StartLine() string {
+	if m.StartOverride != "" {
+		return m.StartOverride
+	}
 	if m.IsReq {
 		return m.Method + " " + m.RURI.String() + " " + m.Version
 	}
